@@ -32,7 +32,7 @@ func (c18) Meta() fw.Meta {
 		Assumptions: []string{
 			"view reads the wall clock: the run is accepted only when the second did not change across the process (stable second); discarded runs are counted",
 		},
-		Obligations: []string{"view_runs", "view_raw_runs", "view_records_checked", "raw_records_checked", "header_checked", "no_header_checked", "sorted_raw", "unsorted_raw", "special_values_printed", "inf_printed", "stale_lap_in_raw", "degenerate_window", "single_archive_selection", "cross_relation_checked", "non_default_tz_runs", "slots_stamped_ahead_of_clock"},
+		Obligations: []string{"view_runs", "view_raw_runs", "view_records_checked", "raw_records_checked", "header_checked", "no_header_checked", "sorted_raw", "unsorted_raw", "special_values_printed", "inf_printed", "stale_lap_in_raw", "degenerate_window", "single_archive_selection", "cross_relation_checked", "non_default_tz_runs", "slots_stamped_ahead_of_clock", "slots_stamped_beyond_2_31", "two_runs_one_textout_file"},
 		Workers:     12,
 	}
 }
@@ -111,6 +111,7 @@ func (c18) Run(c *fw.Ctx) {
 	// slots stamped AHEAD of the viewer's clock (the writer's clock was ahead): view-raw must show them when the
 	// requested range reaches that far
 	future := c.Index%5 == 3
+	beyond31 := false
 	if future {
 		ai := len(l.Archs) - 1
 		if neverWritten >= 0 {
@@ -122,6 +123,12 @@ func (c18) Run(c *fw.Ctx) {
 		if ai >= neverWritten || neverWritten < 0 {
 			a := l.Archs[ai]
 			ahead := wnow + int64(a.Step)*int64(2+r.Intn(int(a.Points)/2+1))
+			if c.Index%10 == 8 {
+				// written by a host whose clock is beyond 2038-01-19 (time >= 2^31)
+				ahead = model.AlignDown(int64(1)<<31+int64(r.Intn(1<<20)), a.Step) + int64(a.Step)*3
+				beyond31 = true
+				c.Count("slots_stamped_beyond_2_31", 1)
+			}
 			var pts []wt.Point
 			for i := 0; i < 1+r.Intn(4); i++ {
 				pts = append(pts, wt.Point{Time: u32(ahead - int64(i)*int64(a.Step)), Value: wt.Value(4242 + float64(i))})
@@ -173,6 +180,11 @@ func (c18) Run(c *fw.Ctx) {
 		window = "into-the-future"
 		from = wnow - r.Int63n(a0.Ret()/2+1)
 		until = wnow + l.MaxRet() + int64(r.Intn(1000))
+		if beyond31 {
+			// everything from the epoch (never-written slots have time 0) to beyond 2^31, sorted
+			from, until = 0, int64(1)<<31+int64(1)<<21
+			sorted = true
+		}
 	}
 	// the local time zone of the process must not matter: times are printed in UTC
 	zone := []string{"", "TZ=Asia/Tokyo", "TZ=America/New_York", "TZ=UTC", "TZ=Asia/Kolkata"}[r.Intn(5)]
@@ -335,6 +347,29 @@ func (c18) Run(c *fw.Ctx) {
 			c.Count("cross_relation_checked", 1)
 			if !found {
 				c.Violationf("view-point-missing-in-view-raw", fw.J{"scenario": sc, "view_line": p.Raw, "view": res.brief(), "view_raw": rres.brief()}, "view shows %q but view-raw over the same range does not show that point", p.Raw)
+				return
+			}
+		}
+	}
+	// two runs of view into ONE -text-out file (a wide window, then a narrow one): the file must consist of
+	// well-formed lines only and contain the complete output of the second run as one block
+	if c.Index%6 == 2 {
+		tf := filepath.Join(dir, "two-runs.out")
+		wide := []string{"view", "-src-base", filepath.Dir(path), "-src", "file.wsp", "-archive", strconv.Itoa(sel), "-text-out", tf}
+		narrow := append(append([]string{}, wide...), "-from", tsArg(wnow-int64(a0.Step)*3), "-until", tsArg(wnow-int64(a0.Step)), "-header=false")
+		r1 := runCLI(c, wide...)
+		r2 := runCLI(c, narrow...)
+		if r1.Exit == 0 && r2.Exit == 0 {
+			so := runCLI(c, append(append([]string{}, narrow[:len(narrow)-1]...), "-header=false", "-text-out", "-")...) // same request to stdout
+			content := string(readFileOrNil(tf))
+			po := parseOutput(content)
+			c.Count("two_runs_one_textout_file", 1)
+			if len(po.Other) > 0 {
+				c.Violationf("text-out-file-torn-lines", fw.J{"scenario": sc, "bad_lines": po.Other[:minI(len(po.Other), 3)]}, "after two runs into one -text-out file it contains malformed lines, e.g. %q", po.Other[0])
+				return
+			}
+			if so.T0 == so.T1 && r2.T0 == so.T0 && !strings.Contains(content, so.Stdout) {
+				c.Violationf("text-out-file-incomplete", fw.J{"scenario": sc}, "the -text-out file does not contain the complete output of the second run")
 				return
 			}
 		}
